@@ -434,7 +434,9 @@ class UnitCalculator(object):
         return all(_is_equal(first, rest) for rest in list_of_quantities)
 
     def _is_dimensionless(self, quantity):
-        return quantity.units.dimensionality == self._registry.dimensionless.dimensionality
+        # No dimensions and no scale: exp(x) with x in mV/volt or in percent is not exp of the number x
+        return (quantity.units.dimensionality == self._registry.dimensionless.dimensionality and
+                math.isclose(self._registry.get_base_units(quantity.units)[0], 1.0))
 
     def traverse(self, expr):
         """Descends the Sympy expression and performs Pint unit arithmetic on sub-expressions.
